@@ -1004,6 +1004,12 @@ class FDE:
         if isinstance(base, tuple) and hasattr(type(base), '_fields'):
             if attr in type(base)._fields:
                 return getattr(base, attr)      # field of a record (namedtuple) built by the evaluated code
+            if attr == '_asdict':
+                return _opfn(lambda: dict(zip(type(base)._fields, tuple(base))))       # record -> {field: value}, in field order
+            if attr == '_fields':
+                return tuple(type(base)._fields)
+            if attr == '_replace':
+                return _opfn(lambda **kw: base._replace(**kw))
             raise Unsupported('attribute %s of a record' % attr)
         if isinstance(base, tuple) and base and base[0] in ('super', 'super_ayns'):
             _, o, after = base
@@ -1813,6 +1819,8 @@ class FDE:
                 if params and params[0] in env and isinstance(env[params[0]], Obj):
                     return ('super', env[params[0]], fi.cls.name)
                 raise Unsupported('super() outside a method on a node object')
+            if n == 'super' and len(args) == 2 and isinstance(args[0], tuple) and len(args[0]) == 2 and args[0][0] == 'class' and isinstance(args[1], Obj) and args[0][1] in self.repo.classes:
+                return ('super', args[1], args[0][1])       # super(Cls, self): the explicit spelling
             if n == 'setattr' and len(args) == 3:
                 o, a, v = args
                 if isinstance(o, Obj) and isinstance(a, str):
